@@ -54,9 +54,17 @@ Definition check (c : c11case) : verdict :=
                     | Some a, Some b => bco_list_eqb a b | None, None => true | _, _ => false end;
          spec_ok := true; wf_ok := true |}
   | CTmReseat l out =>
+      (* oracle on the implementation's own output: every millisecond position of the map's tempo list is still a tempo
+         point of the reseated map (the model returning a list is the domain guard: on-grid lists outside the known
+         extend-window findings) *)
       {| corr_ok := match tm_reseat tbl l, out with
                     | Some a, Some b => bco_list_eqb a b | None, None => true | _, _ => false end;
-         spec_ok := true; wf_ok := true |}
+         spec_ok := match tm_reseat tbl l, out with
+                    | Some a, Some b =>
+                        negb (forallb (fun x => existsb (fun y => Qeq_bool (bo_off x) (bo_off y)) a) l)
+                        || forallb (fun x => existsb (fun y => Qeq_bool (bo_off x) (bo_off y)) b) l
+                    | _, _ => true end;
+         wf_ok := true |}
   end.
 
 Fixpoint failing_go (i : nat) (l : list c11case) (acc : list nat * list nat * list nat)
